@@ -3,7 +3,7 @@ From Aelys Require Import Base.Tactics Model.AirLower.
 Local Open Scope N_scope.
 
 (* ---- witnesses (each reproduced on the real code, see corpus/C17) *)
-Definition stmtA : sstmt := SExpr (EOp true (ECons EAtom ENil)).          (* print("A") *)
+Definition stmtA : sstmt := SExpr (EOp KVoid (ECons EAtom ENil)).          (* print("A") *)
 Definition one_fn (params : list N) (body : sstmts) : sstmts := SCons (SFn [] params body) SNil.
 
 (* fn f(c) { if c { A } } *)
@@ -600,7 +600,7 @@ Proof.
   apply skel_mutind.
   - intros s Hu Ho. apply Step_refl; assumption.
   - intros x s Hu Ho. cbn [lower_expr]. destruct (memN x (names s)); [apply Step_refl|apply emit_step]; assumption.
-  - intros em args IH s Hu Ho. cbn [lower_expr]. destruct em.
+  - intros em args IH s Hu Ho. cbn [lower_expr]. destruct (emits_of em).
     + eapply Step_then; [apply IH; assumption|]. intros; apply emit_step; assumption.
     + apply IH; assumption.
   - intros a l IHl r IHr. apply case_EShort; assumption.
@@ -652,3 +652,17 @@ Proof.
   destruct (lower_top_ok p init (proj1 Hi) (proj2 Hi)) as [_ Ho].
   unfold OutOK in Ho. rewrite Forall_forall in Ho. apply Ho. exact Hin.
 Qed.
+
+(* "every block ends in exactly one terminator": a block only comes into existence through
+   seal_block, which takes the terminator and ALL pending statements; what has to be shown is that
+   nothing emitted is left outside a block when the function is finished *)
+Lemma finalize_clean s : dirty (finalize s) = false /\ pending (finalize s) = None.
+Proof.
+  split; [|apply finalize_pending].
+  unfold finalize. destruct (dirty s) eqn:Ed.
+  - rewrite orb_true_r. cbn. unfold seal. destruct (pending s); reflexivity.
+  - destruct (_ || _); [unfold seal; destruct (pending s); reflexivity|exact Ed].
+Qed.
+
+Lemma seal_takes_statements t s : dirty (seal t s) = false /\ exists id, blocks (seal t s) = (id, t) :: blocks s.
+Proof. unfold seal. destruct (pending s) as [p|]; cbn; split; try reflexivity; eexists; reflexivity. Qed.
